@@ -708,6 +708,10 @@ package objects
 //@   sweep
 //@   mode nopanic=off
 //@   ensures[zero] (forall t Key :: rv(sa.allocatedResource, t) == 0 && rv(sa.allocatedPlaceholder, t) == 0) && (forall k string :: !(k in sa.allocations))
-//@   at[credited] call resources.NewResource#1: assert usercredited(sa) || ((forall t Key :: rv(sa.allocatedResource, t) == 0) && (forall t Key :: rv(sa.allocatedPlaceholder, t) == 0))
+//@   at[credited] call resources.NewResource#1: assert usercredited(sa) || usernottracked(sa) || ((forall t Key :: rv(sa.allocatedResource, t) == 0) && (forall t Key :: rv(sa.allocatedPlaceholder, t) == 0))
 //@   at[credit] call objects.Application.decUserResourceUsage#1 after: assume usercredited(sa)
+//@   at[creditarg] call objects.Application.decUserResourceUsage#1: assert forall t Key :: rv(arg1, t) == clamp64(rv(sa.allocatedResource, t) + rv(sa.allocatedPlaceholder, t))
+//@   at[notracker] call ugm.Manager.GetUserTracker#1 after: assume ret == nil ==> usernottracked(sa)
+// ghost tokens: "decUserResourceUsage ran on this path" / "the user has no tracker, so nothing is charged to it"
 //@ spec abstract usercredited(a *Application) bool
+//@ spec abstract usernottracked(a *Application) bool
